@@ -196,7 +196,22 @@ func (c *seqCtx) checkTop() {
 }
 
 func (c *seqCtx) expectReports(r *Rec, mustK map[int]int64, mayK map[int]int64) {
+	c.expectReportsAt(r, mustK, mayK, nil)
+}
+
+// expectReportsAt: at != nil restricts the judgement to the reports fired at
+// that virtual instant (one janitor pass of an advance).
+func (c *seqCtx) expectReportsAt(r *Rec, mustK map[int]int64, mayK map[int]int64, at *int64) {
 	got := c.reportsIn(r)
+	if at != nil {
+		var f []Report
+		for _, rp := range got {
+			if rp.Now == *at {
+				f = append(f, rp)
+			}
+		}
+		got = f
+	}
 	// reports produced by nested removing calls belong to those calls
 	var own []Report
 	desc := c.tree.descendants(r, nil)
@@ -249,7 +264,7 @@ func (c *seqCtx) expectReports(r *Rec, mustK map[int]int64, mayK map[int]int64) 
 		}
 	}
 	// R6: #reports == Count delta
-	if b, ok := c.cntBefore[r.Ix]; ok {
+	if b, ok := c.cntBefore[r.Ix]; ok && at == nil {
 		a := c.cntAfter[r.Ix]
 		nestedEffects := len(desc) > 0
 		if !nestedEffects && b-a != len(own) {
@@ -428,10 +443,39 @@ func (c *seqCtx) checkRec(r *Rec) {
 		got := c.reportsIn(r)
 		janitorRan := r.N > 0
 		if janitorRan {
-			m.setNow(r.Exp)
-			must, may := m.removeExpired()
-			runKids()
-			c.expectReports(r, must, may)
+			// pass by pass: at each delivered tick the clock stood at that
+			// instant while the pass ran and its callbacks (and whatever they
+			// called) executed
+			var last int64
+			ranKid := map[*Rec]bool{}
+			for i, t := range r.Ticks {
+				if i > 0 && t == last {
+					continue
+				}
+				last = t
+				m.setNow(t)
+				must, may := m.removeExpired()
+				for _, q := range kids {
+					if q.Now == t && !ranKid[q] {
+						ranKid[q] = true
+						c.checkRec(q)
+					}
+				}
+				tt := t
+				c.expectReportsAt(r, must, may, &tt)
+			}
+			for _, q := range kids {
+				if !ranKid[q] {
+					c.checkRec(q)
+				}
+			}
+			if len(kids) == 0 {
+				if b, ok := c.cntBefore[r.Ix]; ok {
+					if n := len(c.reportsIn(r)); m.cb != 0 && b-c.cntAfter[r.Ix] != n {
+						c.fail("ledger-count", "%s lowered Count by %d but fired %d reports", r, b-c.cntAfter[r.Ix], n)
+					}
+				}
+			}
 			m.setNow(target)
 			if m.interval <= 0 {
 				c.fail("janitor-config", "a janitor pass ran although the cleanup interval is %d: %s", m.interval, r)
